@@ -426,6 +426,9 @@ func (m *Machine) check(extra *term.Term, timeoutMs int) solver.Result {
 			break
 		}
 	}
+	if needFP {
+		return m.checkFreshFP(extra, timeoutMs)
+	}
 	p := m.solverProc(needFP)
 	roots, sliced := m.sliceFor(extra)
 	var decls strings.Builder
@@ -452,6 +455,54 @@ func (m *Machine) check(extra *term.Term, timeoutMs int) solver.Result {
 		}
 	}
 	return r
+}
+
+// checkFreshFP decides pc ∧ extra for floating-point queries with a portfolio of fresh solver
+// processes (cvc5 is several times faster than z3 on these; incremental z3 is slower still).
+func (m *Machine) checkFreshFP(extra *term.Term, timeoutMs int) solver.Result {
+	roots := make([]*term.Term, 0, len(m.pc)+1)
+	roots = append(roots, m.pc...)
+	if !extra.IsConst() {
+		roots = append(roots, extra)
+	}
+	var sb strings.Builder
+	pr := term.NewPrinter()
+	expr := "true"
+	if len(roots) > 0 {
+		expr = pr.LetConj(roots, &sb)
+	}
+	fmt.Fprintf(&sb, "(assert %s)\n", expr)
+	vars := term.CollectVars(roots...)
+	names := make([]string, len(vars))
+	for i, v := range vars {
+		names[i] = v.Ref()
+	}
+	to := time.Duration(timeoutMs) * time.Millisecond * 6
+	tq := time.Now()
+	be := m.Backends
+	if len(be) == 0 || (len(be) == 1 && be[0] == "z3") {
+		be = []string{"cvc5", "z3"}
+	}
+	fr := solver.SolveFresh(sb.String(), names, be, to)
+	if os.Getenv("GZV_QLOG") != "" {
+		fmt.Fprintf(os.Stderr, "QFP %s %dms (%s) pc=%d %s\n", fr.Res, time.Since(tq).Milliseconds(), fr.Backend, len(m.pc), extra.String())
+	}
+	if fr.Res == solver.Sat {
+		mod := term.NewModel()
+		for _, v := range vars {
+			if x, ok := fr.Values[v.Ref()]; ok {
+				mod.Set(v, x)
+			}
+		}
+		pm := &poolModel{m: mod}
+		if m.modelSatisfies(pm, extra) {
+			m.models = append(m.models, pm)
+			if len(m.models) > 32 {
+				m.models = m.models[1:]
+			}
+		}
+	}
+	return fr.Res
 }
 
 // varsOf returns the variables of t (cached).
